@@ -388,7 +388,25 @@ func init() {
 				return 0, false, false
 			}
 			nret := 0
+			// a named result: the literal last assigned to it on the path (s.B indexes litTable)
+			var resultObj types.Object
+			if f.Decl.Type.Results != nil && len(f.Decl.Type.Results.List) == 1 && len(f.Decl.Type.Results.List[0].Names) == 1 {
+				resultObj = info.Defs[f.Decl.Type.Results.List[0].Names[0]]
+			}
+			var litTable []*ast.FuncLit
 			spec.Step = func(c *pathsim.Ctx, s pathsim.State, ev *pathsim.Event) []pathsim.State {
+				if ev.Kind == pathsim.EvAssign && resultObj != nil {
+					for i, l := range ev.Lhs {
+						if prog.IdentObjPlain(c.Info, l) == resultObj && i < len(ev.Rhs) {
+							s.B = 0
+							if fl := funcValueLit(r.P, c.Info, ev.Rhs[i]); fl != nil {
+								litTable = append(litTable, fl)
+								s.B = int32(len(litTable))
+							}
+							return []pathsim.State{s}
+						}
+					}
+				}
 				if ev.Kind != pathsim.EvReturn {
 					if ev.Kind == pathsim.EvExit {
 						c.Violate(ev.Pos, "[no-result] alignSender can end without returning a wait function")
@@ -396,11 +414,21 @@ func init() {
 					return nil
 				}
 				nret++
-				if len(ev.Results) != 1 {
+				var lit *ast.FuncLit
+				ok := false
+				switch {
+				case len(ev.Results) == 1 && resultObj != nil && prog.IdentObjPlain(c.Info, ev.Results[0]) == resultObj && s.B > 0 && int(s.B) <= len(litTable):
+					lit, ok = litTable[s.B-1], true // `return wait`: what was last assigned to the named result
+				case len(ev.Results) == 1:
+					lit = funcValueLit(r.P, info, ev.Results[0])
+					ok = lit != nil
+				case len(ev.Results) == 0 && s.B > 0 && int(s.B) <= len(litTable):
+					lit, ok = litTable[s.B-1], true // bare return of the named result: what was last assigned to it
+				}
+				if len(ev.Results) > 1 {
 					c.Violate(ev.Pos, "[result-shape] alignSender must return exactly one function literal per path")
 					return nil
 				}
-				lit, ok := ast.Unparen(deref(info, ev.Results[0])).(*ast.FuncLit)
 				if !ok {
 					c.Violate(ev.Pos, "[result-shape] alignSender returns something other than a function literal; the blocking behaviour cannot be decided")
 					return nil
@@ -525,7 +553,12 @@ func init() {
 				}
 			}
 			// hasAllBarriers == (len(srIDs) == 0)
-			h := r.P.Func("workers/operator", "(*checkpoint).hasAllBarriers")
+			h := r.P.TryFunc("workers/operator", "(*checkpoint).hasAllBarriers")
+			if h == nil {
+				// the predicate was inlined at its uses; C01.b then reads len(srIDs) == 0 there
+				r.Note("checkpoint.hasAllBarriers no longer exists (inlined)")
+				return
+			}
 			r.Site(h.Decl.Pos(), "hasAllBarriers body")
 			okShape := false
 			if len(h.Decl.Body.List) == 1 {
